@@ -1,11 +1,11 @@
 SPECIFICATION Spec
 CONSTANTS
-  N0 = 4
-  ModType = "NTT120"
+  N0 = 8
+  ModType = "FFT64"
   MaxLen = 12
   Budget = 100000
   Ks = {2, 3, 5}
   Simulate = TRUE
-  Focus = {"coef", "norm", "dft", "big", "svp", "prod", "vmp", "load"}
+  Focus = {"load", "dft", "svp", "prod"}
 INVARIANTS TypeOk BudgetOk SourcesUnchanged Dump
 CHECK_DEADLOCK FALSE
